@@ -729,10 +729,22 @@ func dispatchEngine(args []string, in *bufio.Scanner, out *bufio.Writer) {
 	w := newC14World(seed)
 	var inst *dkgInst
 	defer func() {
-		inst.close()
-		if w.bw != nil {
-			w.bw.close()
+		// tear down with a cap: a wedged instance must not keep the harness process alive
+		out.Flush()
+		done := make(chan struct{})
+		go func() {
+			defer close(done)
+			defer func() { _ = recover() }()
+			inst.close()
+			if w.bw != nil {
+				w.bw.close()
+			}
+		}()
+		select {
+		case <-done:
+		case <-time.After(5 * time.Second):
 		}
+		os.Exit(0)
 	}()
 	for in.Scan() {
 		f := fields(in.Text())
@@ -768,6 +780,11 @@ func dispatchEngine(args []string, in *bufio.Scanner, out *bufio.Writer) {
 						r = &pdkg.DKGStatusRequest{BeaconID: idOf(f[3])}
 					}
 					o, d = inst.callStatus(f[1], r)
+				}
+				if o == "hang" { // the call is stuck for good: do not wait long for the probes behind it
+					saved := c14Confirm
+					c14Confirm = time.Second
+					defer func() { c14Confirm = saved }()
 				}
 				pr := inst.probes(f[1])
 				if o == "hang" || strings.Contains(pr, "hang") || strings.Contains(pr, "held") {
